@@ -229,7 +229,7 @@ def replay_jet(run, ob, model, resolutions=None, rtol=1e-6):
         diffs.append(abs(v - oracle_v))
     scale = max(abs(oracle_v), abs(vals[-1]), 1e-12)
     reproduces = (diffs[-1] > rtol * scale) and (diffs[-1] > 0.25 * diffs[0] or diffs[-1] > 1e-3 * scale)
-    dag_agrees = abs(vals[-1] - impl_dag) <= 1e-5 * max(abs(impl_dag), abs(vals[-1])) + 1e-7
+    dag_agrees = abs(vals[-1] - impl_dag) <= 1e-4 * max(abs(impl_dag), abs(vals[-1])) + 1e-6
     return dict(oracle=oracle_v, impl_dag=impl_dag, code_values=vals, diffs=diffs,
                 reproduces=bool(reproduces), dag_matches_code=bool(dag_agrees))
 
